@@ -82,6 +82,10 @@ pub fn run(kind: &str, args: &[String]) -> i32 {
         "text" => text(&mut sink, &opts),
         "cache" => cache(&mut sink, &opts),
         "sink" => sinks(&mut sink, &opts),
+        "corrupt" => corrupt(&mut sink, &opts),
+        "xver" => xver(&mut sink, &opts),
+        "uuid" => uuids(&mut sink, &opts),
+        "threads" => threads(&mut sink, &opts),
         _ => {
             eprintln!("unknown trace kind {kind}");
             return 2;
@@ -300,6 +304,25 @@ pub fn three_answers(src: &[u8], qs: &[Value]) -> Vec<Value> {
         .collect()
 }
 
+/// "ok" unless the recorded answer is a panic or an error of the library
+pub fn status_of(v: &Value) -> &'static str {
+    if v.get("panic").is_some() {
+        "panic"
+    } else if v.get("error").is_some() {
+        "error"
+    } else {
+        "ok"
+    }
+}
+
+pub fn detail_of(v: &Value) -> String {
+    v.get("panic").or_else(|| v.get("error")).and_then(|x| x.as_str()).unwrap_or("").to_string()
+}
+
+pub fn statuses(a: &Value) -> Value {
+    json!({"mapper": status_of(&a["mapper"]), "mapperp": status_of(&a["mapperp"]), "cache": status_of(&a["cache"])})
+}
+
 /// C01..C04/C02: sessions of (mapping, queries over its universe) answered by the three handles
 fn retrace(sink: &mut Sink, o: &Opts) {
     let mut rng = Rng::new(o.seed);
@@ -309,9 +332,15 @@ fn retrace(sink: &mut Sink, o: &Opts) {
     for f in &o.files {
         sessions.push(std::fs::read(f).expect("corpus file"));
     }
-    let cfg = gen::MapCfg { max_classes: 5, max_members: 7, wild: false, noise: true };
+    let wild = o.rest.iter().any(|a| a == "--wild");
+    let cfg = gen::MapCfg { max_classes: 5, max_members: 7, wild, noise: true };
     for k in 0..o.n {
-        let m = if focus == "names" { gen::mapping_many_classes(&mut rng, 20 + (k % 5) * 40) } else { gen::mapping(&mut rng, &cfg) };
+        let m = if wild && k % 3 == 0 {
+            gen::byte_soup(&mut rng)
+        } else if wild && k % 3 == 1 {
+            let base = gen::mapping(&mut rng, &cfg);
+            gen::mutate_file(&mut rng, &base)
+        } else if focus == "names" { gen::mapping_many_classes(&mut rng, 20 + (k % 5) * 40) } else { gen::mapping(&mut rng, &cfg) };
         // metamorphic variants as separate sessions: line endings
         if rng.chance(1, 4) {
             let crlf = String::from_utf8_lossy(&m).replace("\r\n", "\n").replace('\r', "\n").replace('\n', "\r\n").into_bytes();
@@ -328,9 +357,41 @@ fn retrace(sink: &mut Sink, o: &Opts) {
         for _ in 0..per_session {
             qs.push(gen::query(&mut rng, &uni, &focus));
         }
+        if wild {
+            // the remaining public entry points with arbitrary Unicode text; only completion matters here
+            for _ in 0..6 {
+                let text = if rng.chance(1, 2) { gen::trace_text(&mut rng, &uni) } else { gen::unicode_soup(&mut rng) };
+                let out = crate::traces::remap_text(src, &text);
+                sink.emit(json!({"t": "call", "sid": sid + 1, "api": "remap_stacktrace", "arg": enc::s(&text),
+                                 "status": {"mapper": status_of(&out["mapper"]), "cache": status_of(&out["cache"])}}));
+                let sig = if rng.chance(1, 2) { gen::descriptor(&mut rng, &uni) } else { gen::unicode_soup(&mut rng) };
+                let out = crate::traces::signature(src, &sig);
+                sink.emit(json!({"t": "call", "sid": sid + 1, "api": "deobfuscate_signature", "arg": enc::s(&sig),
+                                 "status": {"mapper": status_of(&out["mapper"]), "cache": status_of(&out["cache"])}}));
+                let t2 = text.clone();
+                let st = match guarded(move || {
+                    let _ = proguard::StackTrace::try_parse(t2.as_bytes());
+                    for l in t2.lines() {
+                        let _ = proguard::StackFrame::try_parse(l.as_bytes());
+                        let _ = proguard::Throwable::try_parse(l.as_bytes());
+                    }
+                }) {
+                    Ok(()) => "ok",
+                    Err(_) => "panic",
+                };
+                sink.emit(json!({"t": "call", "sid": sid + 1, "api": "try_parse", "arg": enc::s(&text), "status": {"mapper": st, "cache": st}}));
+                let levels = gen::typed_levels(&mut rng, &uni, false);
+                let out = crate::traces::remap_typed(src, &levels);
+                sink.emit(json!({"t": "call", "sid": sid + 1, "api": "remap_stacktrace_typed", "arg": [], "levels": levels,
+                                 "detail": {"mapper": detail_of(&out["mapper"]), "cache": detail_of(&out["cache"])},
+                                 "status": {"mapper": status_of(&out["mapper"]), "cache": status_of(&out["cache"])}}));
+            }
+        }
         let answers = three_answers(src, &qs);
         for (q, a) in qs.into_iter().zip(answers) {
-            sink.emit(json!({"t": "q", "sid": sid + 1, "q": q, "got": a}));
+            let st = statuses(&a);
+            let detail = json!({"mapper": detail_of(&a["mapper"]), "mapperp": detail_of(&a["mapperp"]), "cache": detail_of(&a["cache"])});
+            sink.emit(json!({"t": "q", "sid": sid + 1, "q": q, "got": a, "status": st, "detail": detail}));
         }
     }
 }
@@ -603,6 +664,334 @@ fn sinks(sink: &mut Sink, o: &Opts) {
         for (script, rest) in scripts {
             let out = crate::sink::run(&src, script, rest);
             sink.emit(crate::sink::event(&out));
+        }
+    }
+}
+
+fn within(hay: &[u8], s: &str) -> bool {
+    let (a, b) = (hay.as_ptr() as usize, hay.as_ptr() as usize + hay.len());
+    let (p, q) = (s.as_ptr() as usize, s.as_ptr() as usize + s.len());
+    s.is_empty() || (p >= a && q <= b)
+}
+
+/// run the query universe against a (possibly corrupted) parsed cache; every returned string must
+/// be a slice of the buffer or of the query
+fn probe_cache(buf: &[u8], queries: &[(String, String, usize, String)]) -> Vec<Value> {
+    let mut out = vec![];
+    let cache = match proguard::ProguardCache::parse(buf) {
+        Ok(c) => c,
+        Err(_) => return out,
+    };
+    for (class, method, line, params) in queries {
+        let c = std::panic::AssertUnwindSafe(&cache);
+        let r = guarded(move || {
+            let mut prov = true;
+            let mut n = 0usize;
+            let own = |s: &str| within(buf, s) || within(class.as_bytes(), s) || within(method.as_bytes(), s) || within(params.as_bytes(), s) || within(b"Obf.java", s);
+            if let Some(x) = c.remap_class(class) {
+                prov &= own(x);
+            }
+            if let Some((a, b)) = c.remap_method(class, method) {
+                prov &= own(a) && own(b);
+            }
+            let file: &'static str = "Obf.java";
+            let frames = [
+                proguard::StackFrame::new(class, method, *line),
+                proguard::StackFrame::with_file(class, method, *line, file),
+                proguard::StackFrame::with_parameters(class, method, params),
+            ];
+            for f in &frames {
+                for g in c.remap_frame(f).take(100_000) {
+                    n += 1;
+                    prov &= own(g.class()) && own(g.method()) && g.file().map(|x| own(x) || within(file.as_bytes(), x)).unwrap_or(true);
+                }
+            }
+            let t = proguard::Throwable::with_message(class, "m");
+            if let Some(t2) = c.remap_throwable(&t) {
+                prov &= own(t2.class());
+            }
+            let text = format!("{class}: boom\n    at {class}.{method}(F.java:{line})\nCaused by: {class}\n");
+            let _ = c.remap_stacktrace(&text);
+            if let Some(tr) = proguard::StackTrace::try_parse(text.as_bytes()) {
+                let _ = c.remap_stacktrace_typed(&tr);
+            }
+            let _ = c.deobfuscate_signature(&format!("(L{};I)L{};", class.replace('.', "/"), class));
+            let _ = format!("{:?}", *c);
+            (prov, n)
+        });
+        out.push(match r {
+            Ok((prov, n)) => json!({"status": "ok", "provenance_ok": prov, "frames": n, "line": enc::dec_usize(*line)}),
+            Err(p) => json!({"status": "panic", "provenance_ok": true, "frames": 0, "line": enc::dec_usize(*line), "detail": p,
+                             "class": enc::s(class), "method": enc::s(method)}),
+        });
+    }
+    out
+}
+
+/// C12: F-field corruptions of real caches, full query universe incl. extreme lines
+fn corrupt(sink: &mut Sink, o: &Opts) {
+    let mut rng = Rng::new(o.seed);
+    let boundary = |rng: &mut Rng, count: u32| -> u32 {
+        rng.pick(&[0, 1, 2, 3, count.wrapping_sub(1), count, count.wrapping_add(1), 1 << 31, u32::MAX - 1, u32::MAX, 7, 36, 28])
+    };
+    for k in 0..o.n {
+        let cfg = gen::MapCfg { max_classes: 1 + k % 5, max_members: 1 + k % 6, wild: k % 4 == 0, noise: false };
+        let src = if k % 6 == 5 { gen::mapping_long_strings(&mut rng) } else { gen::mapping(&mut rng, &cfg) };
+        let Ok(good) = crate::handles::write_cache(&src) else { continue };
+        if good.len() < 24 {
+            continue;
+        }
+        let uni = gen::universe(&src);
+        let mut queries: Vec<(String, String, usize, String)> = vec![];
+        for _ in 0..10 {
+            let class = if uni.classes.is_empty() || rng.chance(1, 8) { "no.Such".to_string() } else { rng.pick_ref(&uni.classes).clone() };
+            let method = if uni.methods.is_empty() || rng.chance(1, 8) { "nosuch".to_string() } else { rng.pick_ref(&uni.methods).clone() };
+            let line = rng.pick(&[0usize, 1, 2, 5, 1 << 31, (1 << 32) - 2, (1 << 32) - 1, 1 << 32, usize::MAX - 1, usize::MAX]);
+            let line = if rng.chance(1, 3) { gen::query_line(&mut rng, &uni) as usize } else { line };
+            let params = if uni.args.is_empty() { String::new() } else { rng.pick_ref(&uni.args).clone() };
+            queries.push((class, method, line, params));
+        }
+        let nc = u32::from_le_bytes(good[8..12].try_into().unwrap()) as usize;
+        let nm = u32::from_le_bytes(good[12..16].try_into().unwrap()) as usize;
+        let np = u32::from_le_bytes(good[16..20].try_into().unwrap()) as usize;
+        let ns = u32::from_le_bytes(good[20..24].try_into().unwrap()) as usize;
+        let al = |x: usize| (x + 7) / 8 * 8;
+        let classes_at = 24;
+        let members_at = al(classes_at + nc * 28);
+        let by_at = al(members_at + nm * 36);
+        let str_at = al(by_at + np * 36);
+        let versions = 12;
+        for v in 0..versions {
+            let mut b = good.clone();
+            let mut what = String::new();
+            let nedits = if v == 0 { 0 } else { rng.range(1, 3) };
+            for _ in 0..nedits {
+                match rng.below(9) {
+                    0 | 1 | 2 if nc + nm + np > 0 => {
+                        // any 32-bit field of any record -> boundary value
+                        let total_fields = nc * 7 + nm * 9 + np * 9;
+                        let f = rng.below(total_fields);
+                        let off = if f < nc * 7 { classes_at + f * 4 } else if f < nc * 7 + nm * 9 { members_at + (f - nc * 7) * 4 } else { by_at + (f - nc * 7 - nm * 9) * 4 };
+                        let count = [nc, nm, np, ns][rng.below(4)] as u32;
+                        let val = boundary(&mut rng, count);
+                        b[off..off + 4].copy_from_slice(&val.to_le_bytes());
+                        what.push_str(&format!("field@{off}={val};"));
+                    }
+                    3 if nm >= 2 => {
+                        // swap or duplicate member records
+                        let (i, j) = (rng.below(nm), rng.below(nm));
+                        let (a, c) = (members_at + i * 36, members_at + j * 36);
+                        let rec: Vec<u8> = b[a..a + 36].to_vec();
+                        if rng.chance(1, 2) {
+                            let other: Vec<u8> = b[c..c + 36].to_vec();
+                            b[a..a + 36].copy_from_slice(&other);
+                        }
+                        b[c..c + 36].copy_from_slice(&rec);
+                        what.push_str(&format!("member{i}<->{j};"));
+                    }
+                    4 if nc >= 2 => {
+                        let (i, j) = (rng.below(nc), rng.below(nc));
+                        let (a, c) = (classes_at + i * 28, classes_at + j * 28);
+                        let rec: Vec<u8> = b[a..a + 28].to_vec();
+                        let other: Vec<u8> = b[c..c + 28].to_vec();
+                        b[a..a + 28].copy_from_slice(&other);
+                        b[c..c + 28].copy_from_slice(&rec);
+                        what.push_str(&format!("class{i}<->{j};"));
+                    }
+                    5 if b.len() > 26 => {
+                        for _ in 0..rng.range(1, 6) {
+                            let p = rng.range(24, b.len() - 1);
+                            b[p] ^= 1 << rng.below(8);
+                        }
+                        what.push_str("bitflips;");
+                    }
+                    6 if ns > 0 => {
+                        // string section: length prefixes and UTF-8
+                        let p = str_at + rng.below(ns);
+                        b[p] = rng.pick(&[0x80u8, 0xff, 0xc3, 0x7f, 0x00, 0xfe]);
+                        what.push_str(&format!("strbyte@{p};"));
+                    }
+                    7 => {
+                        // random bytes behind the valid header
+                        for p in 24..b.len() {
+                            b[p] = rng.below(256) as u8;
+                        }
+                        what.push_str("random-body;");
+                    }
+                    _ => {
+                        let f = rng.below(4);
+                        let val = boundary(&mut rng, [nc, nm, np, ns][f] as u32);
+                        b[8 + 4 * f..12 + 4 * f].copy_from_slice(&val.to_le_bytes());
+                        what.push_str(&format!("header{f}={val};"));
+                    }
+                }
+            }
+            let buf = crate::handles::Aligned::new(&b);
+            let parse = parse_outcome(&b);
+            let calls = probe_cache(buf.bytes(), &queries);
+            sink.emit(json!({"t": "corrupt", "what": what, "parse": parse, "calls": calls, "len": b.len()}));
+        }
+    }
+}
+
+/// C10: all (writer release, reader release) pairs over generated / corpus mappings
+fn xver(sink: &mut Sink, o: &Opts) {
+    let mut rng = Rng::new(o.seed);
+    let per: usize = opt_value(o, "--queries").map(|s| s.parse().unwrap()).unwrap_or(60);
+    let mut srcs: Vec<Vec<u8>> = vec![];
+    for f in &o.files {
+        srcs.push(std::fs::read(f).expect("corpus file"));
+    }
+    for k in 0..o.n {
+        let cfg = gen::MapCfg { max_classes: 1 + k % 6, max_members: 1 + k % 7, wild: false, noise: true };
+        srcs.push(if k % 9 == 8 { gen::mapping_long_strings(&mut rng) } else if k % 9 == 7 { gen::mapping_many_classes(&mut rng, 30) } else { gen::mapping(&mut rng, &cfg) });
+    }
+    for (sid, src) in srcs.iter().enumerate() {
+        let uni = gen::universe(src);
+        let mut qs: Vec<Value> = (0..per).map(|_| gen::query(&mut rng, &uni, "all")).collect();
+        for _ in 0..4 {
+            qs.push(json!({"t": "text", "text": enc::s(&gen::trace_text(&mut rng, &uni))}));
+            qs.push(json!({"t": "sig", "sig": enc::s(&gen::descriptor(&mut rng, &uni))}));
+        }
+        for (wname, bytes) in [("pinned", crate::xver::pinned::write(src)), ("current", crate::xver::current::write(src))] {
+            let Ok(bytes) = bytes else {
+                sink.emit(json!({"t": "xver", "sid": sid + 1, "writer": wname, "write_failed": true, "len": 0,
+                                 "parse": {"pinned": {"ok": false, "err": "write"}, "current": {"ok": false, "err": "write"}},
+                                 "n": 0, "differ": [], "panics": 0}));
+                continue;
+            };
+            let (pp, pa) = crate::xver::pinned::read(&bytes, &qs);
+            let (cp, ca) = crate::xver::current::read(&bytes, &qs);
+            // indices of the queries the two readers answer differently, with both answers
+            let mut differ = vec![];
+            let mut panics = 0;
+            if pa.len() == ca.len() {
+                for k in 0..pa.len() {
+                    if pa[k].get("panic").is_some() || ca[k].get("panic").is_some() {
+                        panics += 1;
+                    }
+                    if pa[k] != ca[k] {
+                        differ.push(json!({"q": qs[k], "pinned": pa[k], "current": ca[k]}));
+                    }
+                }
+            }
+            sink.emit(json!({"t": "xver", "sid": sid + 1, "writer": wname, "write_failed": false, "len": bytes.len(),
+                             "parse": {"pinned": pp, "current": cp}, "n": pa.len().max(ca.len()),
+                             "answered": {"pinned": pa.len(), "current": ca.len()},
+                             "differ": differ, "panics": panics}));
+        }
+    }
+}
+
+/// C18: uuid() of byte strings, repeated in separately started processes
+fn uuids(sink: &mut Sink, o: &Opts) {
+    let mut rng = Rng::new(o.seed);
+    let max: usize = opt_value(o, "--max").map(|s| s.parse().unwrap()).unwrap_or(4096);
+    let mut inputs: Vec<Vec<u8>> = vec![vec![], b"a".to_vec(), b"a -> b:\n".to_vec(), b"a -> b:\r\n".to_vec(), vec![0u8; 55], vec![0xffu8; 56], vec![7u8; 64], vec![9u8; 119], vec![1u8; 120]];
+    for f in &o.files {
+        let src = std::fs::read(f).expect("corpus file");
+        let cut = &src[..src.len().min(max)];
+        inputs.push(cut.to_vec());
+        inputs.push(String::from_utf8_lossy(cut).replace('\n', "\r\n").into_bytes());
+    }
+    for _ in 0..o.n {
+        let len = rng.below(max.min(2048) + 1);
+        inputs.push((0..len).map(|_| rng.below(256) as u8).collect());
+    }
+    let exe = std::env::current_exe().unwrap();
+    let dir = std::env::temp_dir().join(format!("pgv-uuid-{}", std::process::id()));
+    std::fs::create_dir_all(&dir).unwrap();
+    for (k, bytes) in inputs.iter().enumerate() {
+        let id = proguard::ProguardMapping::new(bytes).uuid();
+        let path = dir.join(format!("in{k}"));
+        std::fs::write(&path, bytes).unwrap();
+        let mut again = vec![];
+        let children: Vec<_> = (0..3).map(|_| std::process::Command::new(&exe).arg("uuid-of").arg(&path).arg("-").output()).collect();
+        for c in children.into_iter().flatten() {
+            let hex = String::from_utf8_lossy(&c.stdout).trim().to_string();
+            let b: Vec<u8> = (0..hex.len() / 2).map(|i| u8::from_str_radix(&hex[2 * i..2 * i + 2], 16).unwrap_or(0)).collect();
+            again.push(enc::bytes(&b));
+        }
+        // a clone of the mapping and a second call in this process
+        again.push(enc::bytes(proguard::ProguardMapping::new(&bytes.clone()).uuid().as_bytes()));
+        sink.emit(json!({"bytes": enc::bytes(bytes), "uuid": enc::bytes(id.as_bytes()), "again": again}));
+    }
+    let _ = std::fs::remove_dir_all(&dir);
+}
+
+/// C20: one shared mapper, one shared mapper with parameter index and one shared parsed cache;
+/// query batches split over 2..16 threads started behind a barrier; every thread numbers its own
+/// events (no cross-thread clock); frame iterators are stepped with yields in between
+fn threads(sink: &mut Sink, o: &Opts) {
+    use crate::handles::{parse_query, Aligned, Handle, OwnedQuery};
+    use std::sync::{Arc, Barrier, Mutex};
+    let mut rng = Rng::new(o.seed);
+    let per: usize = opt_value(o, "--queries").map(|s| s.parse().unwrap()).unwrap_or(200);
+    let mut sessions: Vec<Vec<u8>> = vec![];
+    for f in &o.files {
+        sessions.push(std::fs::read(f).expect("corpus file"));
+    }
+    let cfg = gen::MapCfg { max_classes: 5, max_members: 7, wild: false, noise: true };
+    for _ in 0..o.n {
+        sessions.push(gen::mapping(&mut rng, &cfg));
+    }
+    for (sid, src) in sessions.iter().enumerate() {
+        sink.emit(json!({"t": "load", "sid": sid + 1, "src": enc::bytes(src)}));
+    }
+    for (sid, src) in sessions.iter().enumerate() {
+        let uni = gen::universe(src);
+        let qs: Vec<Value> = (0..per).map(|_| gen::query(&mut rng, &uni, "all")).collect();
+        let parsed: Vec<OwnedQuery> = qs.iter().map(parse_query).collect();
+        let nthreads = rng.range(2, 16);
+        // randomised batch split: every query goes to 1..3 threads
+        let mut batches: Vec<Vec<usize>> = vec![vec![]; nthreads];
+        for k in 0..qs.len() {
+            for _ in 0..rng.range(1, 3) {
+                batches[rng.below(nthreads)].push(k);
+            }
+        }
+        let bytes = match crate::handles::write_cache(src) {
+            Ok(b) => b,
+            Err(_) => continue,
+        };
+        let buf = Aligned::new(&bytes);
+        let Ok(cache) = proguard::ProguardCache::parse(buf.bytes()) else { continue };
+        let handles = [
+            Handle::Mapper(proguard::ProguardMapper::new(proguard::ProguardMapping::new(src))),
+            Handle::Mapper(proguard::ProguardMapper::new_with_param_mapping(proguard::ProguardMapping::new(src), true)),
+            Handle::Cache(cache),
+        ];
+        let barrier = Arc::new(Barrier::new(nthreads));
+        let results: Mutex<Vec<Value>> = Mutex::new(vec![]);
+        std::thread::scope(|scope| {
+            for (tid, batch) in batches.iter().enumerate() {
+                let barrier = barrier.clone();
+                let (handles, parsed, qs, results) = (&handles, &parsed, &qs, &results);
+                scope.spawn(move || {
+                    crate::quiet_panics();
+                    barrier.wait();
+                    let mut local = vec![];
+                    for (seq, k) in batch.iter().enumerate() {
+                        let mut got = vec![];
+                        for h in handles.iter() {
+                            let hr = std::panic::AssertUnwindSafe(h);
+                            let q = &parsed[*k];
+                            got.push(guarded(move || {
+                                std::thread::yield_now();
+                                hr.answer(q)
+                            }).unwrap_or_else(|p| json!({"panic": p})));
+                        }
+                        let a = json!({"mapper": got[0], "mapperp": got[1], "cache": got[2]});
+                        let st = statuses(&a);
+                        local.push(json!({"t": "q", "sid": sid + 1, "thread": tid, "seq": seq, "q": qs[*k], "got": a, "status": st,
+                                          "detail": {"mapper": "", "mapperp": "", "cache": ""}}));
+                    }
+                    results.lock().unwrap().extend(local);
+                });
+            }
+        });
+        for ev in results.into_inner().unwrap() {
+            sink.emit(ev);
         }
     }
 }
